@@ -1,0 +1,38 @@
+//go:build verif
+
+package node
+
+// Exports for the verification harness (/verif): checkpoint fetch (C14), cross-cluster
+// replay receiver (C19) and per-partition store access (C15).  Compiled only with
+// -tags verif; nothing here changes behaviour.
+
+import (
+	"path"
+
+	"github.com/youzan/ZanRedisDB/common"
+	"github.com/youzan/ZanRedisDB/rockredis"
+)
+
+// VerifCkptFetchLocal does for `dst` what prepareSnapshotForStore does once it has chosen a
+// source replica on the same host (syncAddr == ""): hard-link the sst files of the newest
+// local checkpoint that came from the same source, copy the source's checkpoint
+// directory over it, and write the source marker.  srcDataDir is the data directory of the
+// store that owns the checkpoint (term, index).  Returns the reused local checkpoint path.
+func VerifCkptFetchLocal(dst *KVStore, srcDataDir string, term uint64, index uint64, stop chan struct{}) (string, error) {
+	localPath := dst.GetBackupDir()
+	srcInfo := srcDataDir
+	srcPath := path.Join(rockredis.GetBackupDir(srcDataDir), rockredis.GetCheckpointDir(term, index))
+	reused, newPath := handleReuseOldCheckpoint(srcInfo, localPath, term, index, 0)
+	err := common.RunFileSync("", srcPath, localPath, stop)
+	postFileSync(newPath, srcInfo)
+	return reused, err
+}
+
+// VerifSyncStore returns the key-value store behind the node's state machine (nil for a
+// log-syncer learner).
+func (nd *KVNode) VerifSyncStore() *KVStore {
+	if sm, ok := nd.sm.(*kvStoreSM); ok {
+		return sm.store
+	}
+	return nil
+}
